@@ -425,6 +425,8 @@ class Sym:
                                     v = s2.new_obj(cls, origin=('copy', v))
                             s2.env[('v', var['id'])] = v
                             s2.env[('n', var['name'])] = v
+                            if var.get('ref') and not var.get('extends_temporary'):
+                                s2.env[('isref', var['id'])] = True
                             new.append(s2)
                     else:
                         s1.env[('v', var['id'])] = ('uninit', var['name'])
@@ -800,6 +802,8 @@ class Sym:
         pristine = st.fork()
         elem = ('elem', r)
         st.env[('v', s['var']['id'])] = elem
+        if s['var'].get('ref'):
+            st.env[('isref', s['var']['id'])] = True
         neff = len(st.effects)
         ncond = len(st.conds)
         out = []
@@ -822,6 +826,8 @@ class Sym:
                 outs1 = [(pristine.fork(), None)]
                 s1 = pristine.fork()
                 s1.env[('v', s['var']['id'])] = elem
+                if s['var'].get('ref'):
+                    s1.env[('isref', s['var']['id'])] = True
                 for s2, sig2 in self.exec(s['b'], s1):
                     outs1.append((s2, None if sig2 in ('break', 'continue') else sig2))
                 return outs1
@@ -837,6 +843,8 @@ class Sym:
                         nxt.append((s1, sig))
                         continue
                     s1.env[('v', s['var']['id'])] = ('index', r, ('k', i, 'int'))
+                    if s['var'].get('ref'):
+                        s1.env[('isref', s['var']['id'])] = True
                     for s2, sig2 in self.exec(s['b'], s1):
                         if sig2 == 'break':
                             nxt.append((s2, 'loop-exit'))
@@ -1109,6 +1117,8 @@ class Sym:
             v = st.env.get(('v', e['id']))
             if v is None:
                 raise Unsupported(f'unbound local {e.get("name")}')
+            if st.env.get(('isref', e['id'])) and isinstance(v, tuple) and v[:1] in (('fld',), ('index',), ('deref',)) and v in st.symstore:
+                return [(st, st.symstore[v])]      # a reference: what was last stored where it is bound
             return [(st, v)]
         if kind in ('capture', 'outerparm'):
             v = st.env.get(('cap', e['name']))
@@ -1240,6 +1250,15 @@ class Sym:
         le = strip_casts(lhs_expr)
         k = le.get('k')
         if k == 'ref' and le.get('kind') == 'local':
+            lv = s.env.get(('v', le['id']))
+            if s.env.get(('isref', le['id'])) and isinstance(lv, tuple) and lv[:1] in (('fld',), ('index',), ('deref',), ('elem',)):
+                # assignment through a reference variable stores where the reference is bound (it does not rebind the name)
+                if lv[0] == 'fld' and isinstance(lv[1], tuple) and lv[1][:1] == ('obj',) and lv[1][1] in s.heap:
+                    s.heap[lv[1][1]].fields[lv[2]] = value
+                else:
+                    s.effects.append(('write', lv, value))
+                    s.symstore[lv] = value
+                return [s]
             s.env[('v', le['id'])] = value
             return [s]
         if k == 'ref' and le.get('kind') == 'parm':
@@ -1972,6 +1991,19 @@ class Sym:
         assign_ops = ('operator=',)
         if callee.get('repo') is False:
             pt = callee.get('ptargs') or []
+            if parent.startswith('std::array<') and recv is not None:
+                # std::array is an aggregate around a built-in array: element access designates the element of that array, the
+                # size is the extent
+                import re as _re
+                if name == 'operator[]' and len(args) == 1:
+                    return [(st, ('index', recv, args[0]))]
+                m_ = _re.search(r',\s*(\d+)\s*>\s*$', parent)
+                if name in ('size', 'max_size') and not args and m_:
+                    return [(st, ('k', int(m_.group(1)), 'int'))]
+                if name in ('front',) and not args:
+                    return [(st, ('index', recv, ('k', 0, 'int')))]
+                if name in ('back',) and not args and m_ and int(m_.group(1)) > 0:
+                    return [(st, ('index', recv, ('k', int(m_.group(1)) - 1, 'int')))]
             if self.apply_functors and name == 'for_each' and recv is None and len(args) == 3 \
                     and isinstance(args[2], tuple) and args[2][:1] == ('obj',) and args[2][1] in st.heap:
                 # one arbitrary iteration: the functor is not applied at all, or applied to some element of the range (what holds
